@@ -199,6 +199,24 @@ Fixpoint every_copy_follows_make (l : list string) : bool :=
   | x :: ((y :: _) as r) => (if String.eqb y "call:copy" then String.eqb x "call:make" else true) && every_copy_follows_make r
   | _ => true
   end.
+(* the receive buffer variable [buf] only ever (a) is allocated once before the loop,
+   (b) advances over itself ([buf = buf[n:]]), or (c) is replaced by a buffer [b] that was
+   made in the statement before the copy into it ([b := make; copy(b, ..); buf = b]); nothing
+   else assigns it (no rewinding to a retained buffer, no reuse of an older allocation) *)
+Definition is_local (e : string) : bool := prefix "local:" e.
+Fixpoint buf_discipline (prev2 prev1 : string) (seen_local : bool) (l : list string) : bool :=
+  match l with
+  | [] => true
+  | e :: r =>
+    (if String.eqb e "call:copy" then String.eqb prev1 "local:b=make" && String.eqb prev2 "call:make"
+     else if String.eqb e "local:buf=b" then String.eqb prev1 "call:copy"
+     else if String.eqb e "local:buf=slice:buf" then true
+     else if String.eqb e "local:b=make" then String.eqb prev1 "call:make"
+     else if String.eqb e "local:buf=make" then negb seen_local
+     else negb (is_local e))
+    && buf_discipline prev1 e (seen_local || is_local e) r
+  end.
+Definition recv_loop_ok (r : list string) : bool :=
+  buf_discipline "" "" false r && Nat.leb 2 (count_ev "call:copy" r) && Nat.eqb (count_ev "local:buf=slice:buf" r) 1.
 Definition recv_never_compacts : bool :=
-  (let r := shape_of "Conn.recv" in every_copy_follows_make r && Nat.leb 2 (count_ev "call:copy" r))
-  && (let r := shape_of "Clnt.recv" in every_copy_follows_make r && Nat.leb 2 (count_ev "call:copy" r)).
+  recv_loop_ok (shape_of "Conn.recv") && recv_loop_ok (shape_of "Clnt.recv").
